@@ -23,7 +23,10 @@ open KG KG.Model.Lifecycle KG.Spec.Lifecycle KG.Lemmas.Lifecycle
 /-! ## the source still has the shape the model builds in -/
 
 /-- Regenerated from /repo on every run (tools/extract/c15 → `KG.Gen.C15`): cluster deletion goes through the stopping
-    delete (`DeleteForServerNames` → `DeleteWithStop` → `doDelete(name, true)` → `Stop` → `cancel`), alias removal through
+    delete (`DeleteForServerNames` → `DeleteWithStop` → `doDelete(name, true)` → `Stop` → `cancel`) and its loop **skips**
+    a server name that no longer resolves to the cluster and goes on to the next one (`delStep` returns the state
+    unchanged and the fold continues — a loop that stopped there would leave the names behind a repeated entry
+    registered), alias removal through
     the plain one, endpoint contexts derive from the cluster's, removed endpoints leave the map and are cancelled,
     health-check loops run under (and watch) a context derived from the `ctx` argument of `EnsureGatewayHealthCheck`,
     and **both** of its call sites (new endpoint; known endpoint being disabled / re-enabled) hand over the endpoint's
@@ -31,7 +34,8 @@ open KG KG.Model.Lifecycle KG.Spec.Lifecycle KG.Lemmas.Lifecycle
     the proxied request when the endpoint's context ends. The model `KG.Model.Lifecycle` is the mirror of exactly this
     shape; if a fact changes, this obligation fails. -/
 theorem c15_source_shape :
-    Gen.C15.deleteForServerNamesStops = true ∧ Gen.C15.aliasDropStops = false ∧
+    Gen.C15.deleteForServerNamesStops = true ∧ Gen.C15.deleteLoopVisitsEveryName = true ∧
+    Gen.C15.updateLoopsVisitEveryName = true ∧ Gen.C15.aliasDropStops = false ∧
     Gen.C15.endpointCtxChildOfCluster = true ∧ Gen.C15.removedEndpointLeavesMap = true ∧
     Gen.C15.removedEndpointCancelled = true ∧ Gen.C15.healthCheckCtxChildOfEndpoint = true ∧
     Gen.C15.hcCtxAtCreateIsEndpoint = true ∧ Gen.C15.hcCtxAtUpdateIsEndpoint = true ∧
@@ -637,6 +641,23 @@ example : ((run demoCycle init).eps.map fun e =>
               [e.id, e.inMap.toNat, e.hcGen, (hcLive (run demoCycle init).cancels e).toNat] ++
                (List.range e.hcGen).flatMap fun g => [(e.hcParent g == e.chain).toNat, (done (run demoCycle init).cancels (e.hcChain g)).toNat])
             = [[1, 0, 2, 0, 1, 1, 1, 1], [2, 1, 1, 1, 1, 0]] := by decide
+
+/-- messed-up server names: the object lists its OWN name and a repeated alias in front of another alias
+    (`serverNames = [a, A, X, x, y]` for cluster `a`, so `LoadServerNames = [a, a, a, x, x, y]`): the second visit of a
+    name finds it gone and is skipped, the loop goes on, and after the delete NO name resolves (hypotheses of
+    `c15_cluster_unresolvable` hold for this state; a request for the trailing alias is rejected) -/
+def nY : Str := [121]
+def demoMessy : List Op :=
+  [ .apply { name := nA, aliases := [nA, [65], nX, nx, nY], servers := [(u0, false)] }, .health u0 true,
+    .reqStart 1 nY, .reqPick 1 0,
+    .delete [65],
+    .reqStart 2 nY, .reqStart 3 nx, .reqStart 4 nA ]
+
+example : ((run (demoMessy.take 4) init).heap 0).map (·.serverNames) = some [nA, nA, nA, nx, nx, nY] ∧
+    get (run (demoMessy.take 4) init) nY = some 0 ∧
+    get (run demoMessy init) nY = none ∧ get (run demoMessy init) nx = none ∧ get (run demoMessy init) nA = none ∧
+    (run demoMessy init).reqs 2 = some Phase.rejected ∧ (run demoMessy init).reqs 3 = some Phase.rejected ∧
+    (run demoMessy init).reqs 4 = some Phase.rejected ∧ reqDone (run demoMessy init) 1 1 0 = true := by decide
 
 /-- and of the alias theorems: dropping the alias `X` with the same servers -/
 def demoAlias : Spec := { name := nA, aliases := [], servers := [(u0, false), (u1, false)] }
